@@ -55,6 +55,7 @@ def cases(tier, seed):
                 pat = [1] * few + [-1] * many + [0] * z
                 rng.shuffle(pat)
                 yield {"k": "seq", "s": gen.spell(rng, pat), "o": rng.randrange(1 << 30)}
+    yield {"k": "sweep", "count": 330 if tier == "quick" else 1200}
     for n in (450, 700) if tier == "quick" else (450, 700, 1001, 1300):
         yield {"k": "seq", "s": gen.rand_seq(rng, "idp", lo=n, hi=n)[:n], "o": rng.randrange(1 << 30)}
     for i in range(NRANDOM[tier]):
@@ -107,7 +108,34 @@ def edge_pair(a, b):
         return False
 
 
+def judge_sweep(case, rep, S):
+    """Many distinct compositions in ONE process; then early compositions again, each against its charge inversion
+    (a different composition) and its reversal."""
+    rng = gen.sub_rng(0, ID, "sweep")
+    comps = gen.distinct_compositions(rng, case["count"], 8, 24)
+    bases = []
+    for (p, n, z) in comps:
+        pat = [1] * p + [-1] * n + [0] * z
+        rng.shuffle(pat)
+        s = gen.spell(rng, pat)
+        bases.append(s)
+        S["SP"](s).get_kappa()
+        rep.cnt("sweep_compositions")
+    for s in bases[:90]:
+        a = getters(S, s, ("kappa", "deltaMax"))
+        for name, t in (("invert", invert(s)), ("reverse", s[::-1]), ("respell", gen.respell(rng, s))):
+            b = getters(S, t, ("kappa", "deltaMax"))
+            rep.cnt("pairs:" + name)
+            for g in ("kappa", "deltaMax"):
+                if not M.close(a[g], b[g]) and not edge_pair(a[g], b[g]):
+                    rep.viol("%s:%s" % (name, g), "%s changes under %s after %d other compositions were analysed in this process: %r for %s vs %r for %s" % (
+                        g, name, len(comps), a[g], s, b[g], t), sig={"transform": name, "getter": g})
+                    return
+
+
 def judge(case, rep, S):
+    if case["k"] == "sweep":
+        return judge_sweep(case, rep, S)
     if case["k"] == "pat":
         pat = M.pat_from_str(case["p"])
         rng = gen.sub_rng(0, ID, case["p"])
